@@ -330,6 +330,21 @@ func NowOffset() time.Duration {
 	return s.cur.TimeOff
 }
 
+var virtualBase = time.Date(2020, 1, 1, 0, 0, 0, 0, time.UTC)
+
+// VirtualNow is the clock of a virtual process under the scheduler: it does not depend
+// on the wall clock (a loaded machine must not expire the code's deadlines); it advances
+// by Sleep and by 100 microseconds per reading, so that deadline loops still terminate.
+// ok=false in transparent mode.
+func VirtualNow() (time.Time, bool) {
+	s := Active
+	if s == nil || s.cur == nil || s.inMon {
+		return time.Time{}, false
+	}
+	s.cur.TimeOff += 100 * time.Microsecond
+	return virtualBase.Add(s.cur.TimeOff), true
+}
+
 func track(f *File) {
 	if s := Active; s != nil && s.cur != nil && !s.inMon && f != nil {
 		f.owner = s.cur
